@@ -32,6 +32,7 @@ static uint64_t* g_status = nullptr;
 static uint64_t g_status_dummy[8];
 static uint32_t g_nguards = 0;
 static unsigned char* g_hits = nullptr;
+static uint32_t* g_counts = nullptr;   // debugging aid (SIM_GUARD_COUNTS): per-guard execution counts
 static const uintptr_t* g_pcs_beg = nullptr; static const uintptr_t* g_pcs_end = nullptr;
 static std::atomic<uint64_t> g_steps_retired{0};
 
@@ -219,12 +220,14 @@ extern "C" void __sanitizer_cov_trace_pc_guard(uint32_t* guard) {
   uint32_t g = *guard;
   t->last_guard = g;
   sim::g_hits[g] = 1;
+  if (sim::g_counts) ++sim::g_counts[g];
   if (++t->steps >= t->step_limit || g == t->watch_guard) sim::guard_slow(t);
 }
 
 namespace sim {
 
 uint32_t rt_num_guards() { return g_nguards; }
+uint32_t* rt_guard_counts(bool enable) { if (enable && !g_counts) g_counts = (uint32_t*)calloc(g_nguards + 2, 4); return g_counts; }
 const unsigned char* rt_guard_hits() { return g_hits; }
 void rt_clear_guard_hits() { if (g_hits) memset(g_hits, 0, g_nguards + 2); }
 uint64_t rt_total_steps() { return g_steps_retired.load() + g_main_ctx.steps; }
